@@ -176,15 +176,29 @@ pub(crate) fn split_os_argument(input: &std::ffi::OsStr) -> Option<(ArgType, Str
             }
         }
 
+        // first element of a character: not a utf8 continuation byte on unix,
+        // not a low surrogate on windows
+        fn starts_char(elt: Elt) -> bool {
+            #[cfg(unix)]
+            {
+                elt & 0xC0 != 0x80
+            }
+            #[cfg(windows)]
+            {
+                !(0xDC00..=0xDFFF).contains(&elt)
+            }
+        }
+
         // keep collecting until = or the end of the input
         loop {
             match items.next() {
                 Some(EQUALS) => {
-                    if ty == ArgType::Short && name.len() > 1 {
-                        let mut body = name.drain(1..).collect::<Vec<_>>();
+                    // short name is a single character, but not necessarily a single element
+                    let second_char = name.iter().skip(1).position(|e| starts_char(*e));
+                    if let (ArgType::Short, Some(ix)) = (&ty, second_char) {
+                        let mut body = name.drain(ix + 1..).collect::<Vec<_>>();
                         body.push(EQUALS);
                         body.extend(items);
-                        name.truncate(1);
                         let os = Arg::ArgWord(os_from_vec(body));
                         return Some((ty, str_from_vec(name)?, Some(os)));
                     }
@@ -245,11 +259,12 @@ pub(crate) fn split_os_argument_fallback(
     loop {
         match chars.next() {
             Some('=') => {
-                if ty == ArgType::Short && name.len() > 1 {
-                    let mut body = name.drain(1..).collect::<String>();
+                // short name is a single character, but not necessarily a single byte
+                let first = name.chars().next().map_or(0, char::len_utf8);
+                if ty == ArgType::Short && name.len() > first {
+                    let mut body = name.drain(first..).collect::<String>();
                     body.push('=');
                     body.extend(chars);
-                    name.truncate(1);
                     let os = Arg::ArgWord(OsString::from(body));
                     return Some((ty, name, Some(os)));
                 }
